@@ -687,7 +687,7 @@ class Engine:
                     if isinstance(a.off, int) and isinstance(b.off, int):
                         return (a.off - b.off) & mask(bits)
                     return bv(a.off, 64) - bv(b.off, 64)
-                return UNDEF   # speculated difference of unrelated pointers: error only if used
+                return PtrDiff(a, b)   # relative-table entry or speculated difference: only usable when added back
             raise EngineError("pointer+pointer")
         if pa:
             d = b if op == "add" else (-b if not is_sym(b) else -b)
